@@ -481,6 +481,7 @@ int runExhaustive(const hc::Args& a, const std::string& prop){
     const long nbPatterns = (1L << nbLeaves) - 1;
     const long part = a.getInt("part", 0), parts = std::max(1L, a.getInt("parts", 1));
     long done = 0;
+    const bool everyCase = a.getInt("isolate", 0) != 0;   // the rerun after a crash records every case (the crashing one is then in --cur)
     for(long pat = 1 + part ; pat <= nbPatterns ; pat += parts){
         FmmCase c; c.dim = Dim; c.height = H; c.real = RealCode; c.nextra = 0; c.salt = 7;
         for(long leaf = 0 ; leaf < nbLeaves ; ++leaf) if(pat & (1L << leaf)){
@@ -493,7 +494,7 @@ int runExhaustive(const hc::Args& a, const std::string& prop){
         for(long bs : sizes) for(int mode = 0 ; mode < 2 ; ++mode){
             if(bs > nOcc && bs != 1) continue;
             c.blockSize = bs; c.oneGroupPerParent = mode;
-            if(!a.cur.empty() && done % 256 == 0) vj::writeFile(a.cur, c.toJson());
+            if(!a.cur.empty() && (everyCase || done % 256 == 0)) vj::writeFile(a.cur, c.toJson());
             hc::stats().evaluations += 1; done += 1;
             const std::string r = propSingle(c, prop);
             if(!r.empty() && r.compare(0, 4, "SKIP") != 0){
